@@ -2,8 +2,8 @@ import SgVerif.C09.Lemmas
 /-
 C09 — Message queues are exactly-once and FIFO.  Property theorems (nothing else in this file).
 
-Every theorem is for ALL histories `h : List Ev` of kernel calls (iput / iget / cancel, any actors, any payloads,
-any length) on a message queue; `run h` is the state of the `MessageQueueImpl` model after them.  A call is named by
+Every theorem is for ALL histories `h : List Ev` of kernel calls (iput / iget / cancel / a later wait() or test() on a
+finished exchange, any actors, any payloads, any length) on a message queue; `run h` is the state of the `MessageQueueImpl` model after them.  A call is named by
 its index in `h`.  `pairs s` lists the completed exchanges as (index of the iput call, index of the iget call) in
 completion order.  Timed waits (`wait_for`) do not appear: in the code a timeout only unregisters the waiting
 simcall and leaves the `MessImpl` queued, so it is not a step of the queue (the driver checks that against the
@@ -121,31 +121,32 @@ theorem iput_serves_oldest (h : List Ev) (a pl : Nat) (det : Bool) (m : Mess) (h
       rw [pairs_cons, pairOf_finish_put g a pl _ det hgev]
       simp
 
-/-!
-### The payload is written into the getter's buffer once — FALSE on the current code
+/-- **The payload is written into the getter's buffer once**, whatever the number of later `wait()/test()` calls of
+either side on the finished exchange (`refinish` steps: `ActivityImpl::wait_for/test` run `MessImpl::finish()` again on an
+object that is not WAITING/RUNNING any more).  This is what "every get returns the payload of exactly one put" needs at
+the level of the buffer: the getter's buffer is a local variable of `MessageQueue::get<T>()`, dead once the get
+returned.  Holds since `finish()` resets `dst_buff_` with the copy. -/
+theorem mq_written_once (h : List Ev) : ∀ m ∈ (run h).fin, m.writes ≤ 1 :=
+  fun m hm => ((wok_run h).2 m hm).writes_le
 
-Full-strength statement (what "every get returns the payload of exactly one put" needs at the level of the buffer):
+/-- a later `wait()/test()` on an exchange that already left the queue changes neither the queue nor any finished
+object (in particular it writes nobody's buffer) -/
+theorem mq_refinish_noop (h : List Ev) (id : Nat) :
+    (refinish (run h) id).fin = (run h).fin ∧ (refinish (run h) id).queue = (run h).queue :=
+  ⟨refinish_fin (wok_run h) id, rfl⟩
 
-    theorem mq_written_once (h : List Ev) : ∀ m ∈ (run h).fin, m.writes ≤ 1
+/-- a queued (unmatched) object has not been copied to: nothing is written before the exchange is matched -/
+theorem mq_queued_unwritten (h : List Ev) : ∀ m ∈ (run h).queue, m.writes = 0 ∧ m.delivered = none :=
+  fun m hm => ⟨((wok_run h).1 m hm).1, ((link_run h).q m hm).2.1⟩
 
-It does not hold: `MessImpl::finish()` runs again on every later `wait()/test()` of either side and, having no
-`copied_` flag, executes `*(void**)dst_buff_ = payload_` again — also after the getter has returned, when
-`dst_buff_` (a local variable of `MessageQueue::get<T>()`) is dead.  Reproduced on the library (the getter's stack is
-overwritten: segmentation fault in a later `sleep_for`; with a heap buffer: the buffer the getter had already
-consumed is filled again).  Classification key: `mess-finish-recopies-payload`.
--/
-
-/-- counterexample: a get with a buffer is queued, a put is matched with it (first write), then the putter waits on
-its already-DONE put: `finish()` writes the buffer a second time. -/
-theorem mq_written_once_counterexample :
-    ∃ h : List Ev, ∃ m ∈ (run h).fin, m.state = .done ∧ m.writes = 2 :=
-  ⟨[.iget 1 true, .iput 2 70 false, .refinish 0], by decide⟩
-
-/-- what does hold: without a later `wait()/test()` on an object that is already finished (no `refinish` call in
-the history) the buffer is written at most once. -/
-theorem mq_written_once_partial (h : List Ev) (hh : ∀ e ∈ h, ∀ id, e ≠ Ev.refinish id) :
-    ∀ m ∈ (run h).fin, m.writes ≤ 1 :=
-  (wok_foldl h hh {} ⟨by simp, by simp⟩).2
+/-- **Regression (pre-fix code).**  Before `finish()` reset `dst_buff_` (`runPre`: the same calls with
+`Mess.refinishPre`), `mq_written_once` was false: a get with a buffer is queued, a put is matched with it (first write),
+then the putter waits on its already-DONE put and `finish()` writes the getter's buffer a second time — reproduced on the
+library (stack of the getter overwritten -> segmentation fault; heap buffer refilled), key
+`mess-finish-recopies-payload` (fixed).  On the fixed model the same history writes once. -/
+theorem mq_written_once_prefix_regression :
+    (∃ m ∈ (runPre [.iget 1 true, .iput 2 70 false, .refinish 0]).fin, m.state = .done ∧ m.writes = 2) ∧
+    ((run [.iget 1 true, .iput 2 70 false, .refinish 0]).fin.map (·.writes)) = [1] := by decide
 
 /-! ### non-vacuity: concrete histories on which the statements above say something -/
 
@@ -159,8 +160,9 @@ example : pairs (run [.iget 2 true, .iget 3 true, .cancel 0, .iput 1 70 true, .i
     ((run [.iget 2 true, .iget 3 true, .cancel 0, .iput 1 70 true, .iput 1 71 false]).queue.map (·.id)) = [4] := by
   decide
 
-/-- `mq_written_once_partial` is not vacuous: a history without refinish in which the buffer is written (once) -/
-example : ((run [.iget 1 true, .iput 2 70 false]).fin.map (·.writes)) = [1] := by decide
+/-- `mq_written_once` is not vacuous: the buffer is written (once), also with later wait()/test() calls of both sides -/
+example : ((run [.iget 1 true, .iput 2 70 false, .refinish 0, .refinish 0, .iput 2 71 false, .iget 1 true, .refinish 2]).fin.map
+    (fun m => (m.writes, m.delivered))) = [(1, some 71), (1, some 70)] := by decide
 
 /-- hypotheses of `iget_takes_oldest` are satisfiable -/
 example : ∃ m ∈ (run [.iput 1 70 false, .iput 4 71 true]).queue, m.type = .put := by decide
